@@ -82,8 +82,21 @@ def _preserve_common(ck: Check, repo: Repo, fn: Fn, rule: str) -> None:
               construct=f"{fn.name}: extra filter {e}")
 
 
-def _from(tb: TermBuilder, p: Poly, param: str) -> bool:
-    return mentions(tb, p, lambda a: a.kind == "param" and a.name == param)
+def _from(tb: TermBuilder, p: Poly, param: str, _d: int = 0) -> bool:
+    """Does the value derive from `param`?  (index expressions of subscripts are not followed: a key taken from the
+    new network used to look a value up in the old network's table does not make the value 'new')"""
+    if _d > 20:
+        return False
+    for k in p.atoms():
+        a = tb.atoms.get(k)
+        if a is None:
+            continue
+        if a.kind == "param" and a.name == param:
+            return True
+        subs = a.sub[:1] if a.kind == "idx" else a.sub
+        if any(_from(tb, s_, param, _d + 1) for s_ in subs):
+            return True
+    return False
 
 
 def _preserve_slices(ck: Check, repo: Repo, fn: Fn) -> None:
